@@ -232,56 +232,7 @@ func c04(c *core.Check) {
 
 	// ---------- R3
 	c.Rule("C04-R3", "INDICES: PatternExpr.Index is assigned only as `len(c.obj.Regexps) - 1` directly after `c.obj.Regexps = append(c.obj.Regexps, …)`; the Str operand is `len(c.obj.Strings)-1` directly after the append; Symbol.Addr of a metric is `len(c.obj.Metrics)` directly before the append; operands of Match/Smatch/Rsubst-push come from PatternExpr.Index and of Mload from Symbol.Addr")
-	n3 := 0
-	for _, k := range c.Prog.SortedFuncKeys() {
-		f := c.Prog.Funcs[k]
-		if f.Lit != nil || c.Prog.IsTestSupport(f) {
-			continue
-		}
-		info := f.Info()
-		ast.Inspect(f.Body, func(n ast.Node) bool {
-			var list []ast.Stmt
-			switch b := n.(type) {
-			case *ast.BlockStmt:
-				list = b.List
-			case *ast.CaseClause:
-				list = b.Body
-			}
-			for i, st := range list {
-				as, ok := st.(*ast.AssignStmt)
-				if !ok || len(as.Lhs) != 1 || len(as.Rhs) != 1 {
-					continue
-				}
-				sel, ok := core.Unparen(as.Lhs[0]).(*ast.SelectorExpr)
-				if !ok {
-					continue
-				}
-				s := info.Selections[sel]
-				if s == nil || s.Kind() != types.FieldVal {
-					continue
-				}
-				recvT := s.Recv().String()
-				rhs := strings.ReplaceAll(exprStr(as.Rhs[0]), " ", "")
-				switch {
-				case sel.Sel.Name == "Index" && strings.HasSuffix(recvT, "ast.PatternExpr"):
-					n3++
-					c.Analysed(f)
-					prevOK := i > 0 && isAppendTo(list[i-1], "c.obj.Regexps")
-					c.Verdict(rhs == "len(c.obj.Regexps)-1" && prevOK, "C04-R3", f.Key+"|PatternExpr.Index", pos(c, as), "fresh slot", "a pattern's regexp index is not the index of a regexp appended for it at that moment ("+rhs+"): it may be out of range or shared with another pattern, whose capture groups it then overwrites")
-				case sel.Sel.Name == "Addr" && strings.HasSuffix(recvT, "symbol.Symbol"):
-					n3++
-					c.Analysed(f)
-					if core.Rel(f.Pkg.PkgPath) == "internal/runtime/compiler/codegen" {
-						nextOK := i+1 < len(list) && isAppendTo(list[i+1], "c.obj.Metrics")
-						c.Verdict(rhs == "len(c.obj.Metrics)" && nextOK, "C04-R3", f.Key+"|Symbol.Addr", pos(c, as), "index of the metric appended next", "a metric symbol's address is not the index at which its metric is appended ("+rhs+")")
-					} else {
-						c.Ok("C04-R3", f.Key+"|Symbol.Addr", pos(c, as), "capture-group number assigned by the checker; the VM bounds-checks it (R5)")
-					}
-				}
-			}
-			return true
-		})
-	}
+	tableSlots(c, "C04-R3")
 	for i, es := range emits {
 		if es.Call == nil {
 			continue
@@ -606,4 +557,60 @@ func derivedFromMatches(vm *vmTable, vc *vmCase, e ast.Expr) bool {
 		return true
 	})
 	return found
+}
+
+// tableSlots checks that every assignment to PatternExpr.Index / a metric
+// symbol's Addr is the index of an element appended at that moment.
+func tableSlots(c *core.Check, rule string) {
+	n3 := 0
+	_ = n3
+	for _, k := range c.Prog.SortedFuncKeys() {
+		f := c.Prog.Funcs[k]
+		if f.Lit != nil || c.Prog.IsTestSupport(f) {
+			continue
+		}
+		info := f.Info()
+		ast.Inspect(f.Body, func(n ast.Node) bool {
+			var list []ast.Stmt
+			switch b := n.(type) {
+			case *ast.BlockStmt:
+				list = b.List
+			case *ast.CaseClause:
+				list = b.Body
+			}
+			for i, st := range list {
+				as, ok := st.(*ast.AssignStmt)
+				if !ok || len(as.Lhs) != 1 || len(as.Rhs) != 1 {
+					continue
+				}
+				sel, ok := core.Unparen(as.Lhs[0]).(*ast.SelectorExpr)
+				if !ok {
+					continue
+				}
+				s := info.Selections[sel]
+				if s == nil || s.Kind() != types.FieldVal {
+					continue
+				}
+				recvT := s.Recv().String()
+				rhs := strings.ReplaceAll(exprStr(as.Rhs[0]), " ", "")
+				switch {
+				case sel.Sel.Name == "Index" && strings.HasSuffix(recvT, "ast.PatternExpr"):
+					n3++
+					c.Analysed(f)
+					prevOK := i > 0 && isAppendTo(list[i-1], "c.obj.Regexps")
+					c.Verdict(rhs == "len(c.obj.Regexps)-1" && prevOK, rule, f.Key+"|PatternExpr.Index", pos(c, as), "fresh slot", "a pattern's regexp index is not the index of a regexp appended for it at that moment ("+rhs+"): it may be out of range or shared with another pattern, whose capture groups it then overwrites")
+				case sel.Sel.Name == "Addr" && strings.HasSuffix(recvT, "symbol.Symbol"):
+					n3++
+					c.Analysed(f)
+					if core.Rel(f.Pkg.PkgPath) == "internal/runtime/compiler/codegen" {
+						nextOK := i+1 < len(list) && isAppendTo(list[i+1], "c.obj.Metrics")
+						c.Verdict(rhs == "len(c.obj.Metrics)" && nextOK, rule, f.Key+"|Symbol.Addr", pos(c, as), "index of the metric appended next", "a metric symbol's address is not the index at which its metric is appended ("+rhs+")")
+					} else {
+						c.Ok(rule, f.Key+"|Symbol.Addr", pos(c, as), "capture-group number assigned by the checker; the VM bounds-checks it (R5)")
+					}
+				}
+			}
+			return true
+		})
+	}
 }
